@@ -231,3 +231,37 @@ package proj
 //@   loop 1 `for {`
 //@     invariant 0 <= iter && iter <= 15 && (ok == 0 || ok == 1) && x == (*this).Long0 - deltav / *Alfa && (iter > 0 ==> y == fi1) && (ok == 1 ==> iter > 0)
 //@     decreases 15 - iter when ok == 0
+
+//@ -- datum classification and parameter scaling as in proj4js lib/datum.js (constructor)
+//@ pred rot7(p []float64) = len(p) > 3 && (p[3] != 0 || p[4] != 0 || p[5] != 0 || p[6] != 0)
+//@ pred shift3(p []float64) = len(p) > 0 && (p[0] != 0 || p[1] != 0 || p[2] != 0)
+
+//@ func (proj *SR) getDatum
+//@   prop C09
+//@   mode real
+//@   requires [sr] proj != nil
+//@   requires [params_3_or_7] len(proj.DatumParams) == 0 || len(proj.DatumParams) == 3 || len(proj.DatumParams) == 7
+//@   ensures [fresh] result != nil && fresh(result)
+//@   ensures [type] result.datum_type == (proj.NADGrids != "" ? pjdGridShift : (old(rot7(proj.DatumParams)) ? pjd7Param : (old(shift3(proj.DatumParams)) ? pjd3Param : ((proj.DatumCode == "" || proj.DatumCode == "none") ? pjdNoDatum : pjdWGS84))))
+//@   ensures [scaled_7] old(rot7(proj.DatumParams)) ==> len(result.datum_params) == 7 && result.datum_params[0] == old(proj.DatumParams[0]) && result.datum_params[1] == old(proj.DatumParams[1]) && result.datum_params[2] == old(proj.DatumParams[2]) && result.datum_params[3] == old(proj.DatumParams[3]) * 4.84813681109535993589914102357e-6 && result.datum_params[4] == old(proj.DatumParams[4]) * 4.84813681109535993589914102357e-6 && result.datum_params[5] == old(proj.DatumParams[5]) * 4.84813681109535993589914102357e-6 && result.datum_params[6] == old(proj.DatumParams[6]) / 1000000.0 + 1.0
+//@   ensures [ellipsoid] result.a == proj.A && result.b == proj.B && result.es == proj.Es && result.ep2 == proj.Ep2
+//@   modifies proj.DatumParams
+
+//@ -- transverse Mercator closures against lib/projections/tmerc.js (hand transcription)
+//@ func TMerc$1
+//@   prop C09
+//@   mode real
+//@   requires [captured] *this != nil
+//@   ensures [sphere] err == nil && (*this).sphere ==> x == 0.5 * (*this).A * (*this).K0 * log((1 + cos(lat) * sin(js_adjust_lon(lon - (*this).Long0))) / (1 - cos(lat) * sin(js_adjust_lon(lon - (*this).Long0)))) && y == (*this).A * (*this).K0 * ((lat < 0 ? -acos(cos(lat) * cos(js_adjust_lon(lon - (*this).Long0)) / sqrt(1 - (cos(lat) * sin(js_adjust_lon(lon - (*this).Long0))) * (cos(lat) * sin(js_adjust_lon(lon - (*this).Long0))))) : acos(cos(lat) * cos(js_adjust_lon(lon - (*this).Long0)) / sqrt(1 - (cos(lat) * sin(js_adjust_lon(lon - (*this).Long0))) * (cos(lat) * sin(js_adjust_lon(lon - (*this).Long0)))))) - (*this).Lat0)
+//@   ensures [ellipsoid_x] err == nil && !(*this).sphere ==> x == (*this).K0 * ((*this).A / sqrt(1 - (*this).Es * pow(sin(lat), 2))) * (cos(lat) * js_adjust_lon(lon - (*this).Long0)) * (1 + pow(cos(lat) * js_adjust_lon(lon - (*this).Long0), 2) / 6 * (1 - pow(tan(lat), 2) + (*this).Ep2 * pow(cos(lat), 2) + pow(cos(lat) * js_adjust_lon(lon - (*this).Long0), 2) / 20 * (5 - 18 * pow(tan(lat), 2) + pow(pow(tan(lat), 2), 2) + 72 * ((*this).Ep2 * pow(cos(lat), 2)) - 58 * (*this).Ep2))) + (*this).X0
+//@   modifies nothing
+
+//@ func TMerc$2
+//@   prop C09
+//@   mode real
+//@   requires [captured] *this != nil
+//@   ensures [sphere_lat] err == nil && (*this).sphere ==> lat == (((*this).Lat0 + y / ((*this).A * (*this).K0)) < 0 ? -js_asinz(sqrt((1 - cos((*this).Lat0 + y / ((*this).A * (*this).K0)) * cos((*this).Lat0 + y / ((*this).A * (*this).K0))) / (1 + (0.5 * (exp(x / ((*this).A * (*this).K0)) - 1 / exp(x / ((*this).A * (*this).K0)))) * (0.5 * (exp(x / ((*this).A * (*this).K0)) - 1 / exp(x / ((*this).A * (*this).K0))))))) : js_asinz(sqrt((1 - cos((*this).Lat0 + y / ((*this).A * (*this).K0)) * cos((*this).Lat0 + y / ((*this).A * (*this).K0))) / (1 + (0.5 * (exp(x / ((*this).A * (*this).K0)) - 1 / exp(x / ((*this).A * (*this).K0)))) * (0.5 * (exp(x / ((*this).A * (*this).K0)) - 1 / exp(x / ((*this).A * (*this).K0))))))))
+//@   modifies nothing
+//@   loop 1 `for {`
+//@     invariant 0 <= i && i <= 6
+//@     decreases 6 - i
